@@ -338,3 +338,32 @@ Proof.
       * destruct (w_reorderable x); [apply (IHr acc); exact E1|inversion E1; reflexivity].
       * apply (IHr (acc ++ [x])). exact E1.
 Qed.
+
+(* ---------------- embedding inserts EVERY route of the embedded application, in its order ---------------- *)
+Lemma all_ok_map_keys {X Y} (f : X -> result Y) (kx : X -> nat) (ky : Y -> nat) :
+  (forall x y, f x = Ok y -> ky y = kx x) ->
+  forall l l', all_ok (map f l) = Ok l' -> map ky l' = map kx l.
+Proof.
+  intros Hk. induction l as [|x r IH]; intros l' H; simpl in H.
+  - inversion H. reflexivity.
+  - destruct (f x) as [y|c] eqn:Ef; [|discriminate].
+    destruct (all_ok (map f r)) as [ys|c]; [|discriminate]. inversion H; subst. simpl.
+    rewrite (Hk x y Ef). f_equal. apply IH. reflexivity.
+Qed.
+
+Theorem embed_is_splice_of_all w t p s rb inh idx env rs senv srcs w' :
+  wget w t = Some (env, rs) -> wget w s = Some (senv, srcs) ->
+  wstep w (OEmbed t p s rb inh idx) = (w', WOk) ->
+  exists bs, w' = wset w t (env, splice rs idx bs) /\
+             map (fun x => b_key (fst x)) bs = map (fun x => b_key (fst x)) srcs /\
+             List.length bs = List.length srcs.
+Proof.
+  intros Ht Hs. unfold wstep. rewrite Ht, Hs.
+  destruct (all_ok _) as [bs|c] eqn:Ea; intros H; inversion H; subst.
+  exists bs. split; [rewrite add_splice; reflexivity|].
+  assert (Hk : map (fun x : bound * list (option nat) => b_key (fst x)) bs = map (fun x => b_key (fst x)) srcs).
+  { eapply all_ok_map_keys; [|exact Ea]. intros x y Hf. cbn beta in Hf.
+    destruct (rebind_bound (fst x) (snd x) env (rstrip_slash p) inh rb) as [b|c] eqn:Er; [|discriminate].
+    inversion Hf; subst. cbn [fst]. destruct (rebind_fields _ _ _ _ _ _ _ Er) as (_ & _ & _ & Hkey & _). exact Hkey. }
+  split; [exact Hk|]. rewrite <- (map_length (fun x => b_key (fst x)) bs), Hk, map_length. reflexivity.
+Qed.
